@@ -142,7 +142,11 @@ def farkas(ineqs):
     const = z3.Sum([ws[i] * q(k) for i, ((_, k), _) in enumerate(ineqs)])
     strict_pos = z3.Or([ws[i] > 0 for i, (_, st) in enumerate(ineqs) if st] + [z3.BoolVal(False)])
     s.add(z3.Or(const < 0, z3.And(const <= 0, strict_pos)))
-    if s.check() != z3.sat:
+    r = s.check()
+    if r == z3.unknown:                 # wall-clock timeout on a loaded machine: a tiny LP, ask again with a generous limit
+        s.set("timeout", 180000)
+        r = s.check()
+    if r != z3.sat:
         return None
     m = s.model()
     out = []
